@@ -75,6 +75,32 @@ PROPS = {
             "X: totality of the whole start-up path; hangs in general",
         ],
     },
+    "C06": {
+        "units": ["schedule", "x509time", "renew", "storage"],
+        "design_ref": "DESIGN.md section 5 C06",
+        "technique": "Verus function contracts: saturating-time arithmetic against spec functions; request shim requires the scheduled wait",
+        "text": "Deductive proof that schedule_renewal answers 'now' when a file is missing or an identifier is not covered, and otherwise "
+                "max(0, notAfter - renew_delay) minus a jitter below random_early_renew (never later, never negative, no overflow for any "
+                "OpenSSL time difference), and that the request is issued right after sleeping exactly that time.",
+        "assumptions": [
+            "T: ASN1_TIME_diff returns days*86400+secs = notAfter-now with |secs| < 86400; SAN extraction by OpenSSL (cert_san); rand::gen_range stays in its range",
+            "T: HashSet<String> operations as stated in prelude/titer3.rs",
+            "X: black-box timing; the textual form of SAN entries (IP rendering in subject_alt_names)",
+        ],
+    },
+    "C07": {
+        "units": ["renew"],
+        "design_ref": "DESIGN.md section 5 C07",
+        "technique": "Verus function contracts over ghost counters (requests, post-operation runs, time slept since the last request)",
+        "text": "Deductive proof that one task step performs exactly one request and exactly one post-operation hook run, reports success iff "
+                "the request succeeded (with the prefixed error text otherwise), swallows a post-operation hook error, sleeps at least a second "
+                "after a failure before handing the task back, and that the scheduling-retry loop stays in bounds and terminates.",
+        "assumptions": [
+            "A-CLOCK: the process does not outlive a 64-bit nanosecond clock (bounds the retry counter; used for termination of the retry loop)",
+            "T: request_certificate / schedule_renewal / call_post_operation_hooks are seen through recording stubs here; their own contracts are proved in their units",
+            "X: liveness under faults inside reqwest/tokio/OpenSSL; hooks have no timeout ('bounded time'); non-interference between certificates (concurrency, C12)",
+        ],
+    },
     "C08": {
         "units": ["http"],
         "design_ref": "DESIGN.md section 5 C08",
